@@ -226,11 +226,11 @@ func TestVerif_C04C18C07_StringAxioms(t *testing.T) {
 // TestVerif_C04C06_TextScanner: the text/scanner-based default lexer: token values are the input bytes at their
 // offsets, positions are exact, EOF sits at the end, and a lexing error is a *lexer.Error located inside the input
 // with line and column consistent with its offset.
-func TestVerif_C04C06_TextScanner(t *testing.T) {
-	res := &verifResult{Check: "text/scanner lexer", Property: "C04 C06", Exhaustive: true,
-		Bound: "all inputs of length <= 4 (thorough: 5) over {a, 1, space, newline, \", ', `, /, *, \\xc3, \\xa9, \\xff, NUL}, through LexString, LexBytes and Lex(reader)",
+func TestVerif_C04C06C15_TextScanner(t *testing.T) {
+	res := &verifResult{Check: "text/scanner lexer", Property: "C04 C06 C15", Exhaustive: true,
+		Bound: "all inputs of length <= 4 (thorough: 5) over {a, 1, space, newline, \", ', `, /, *, \\xc3, \\xa9, \\xff, NUL, CR}, through LexString, LexBytes and Lex(reader)",
 		Rule: "distinct inputs; non-trivial = more than one token or an error"}
-	alpha := []string{"a", "1", " ", "\n", `"`, "'", "`", "/", "*", "\xc3", "\xa9", "\xff", "\x00"}
+	alpha := []string{"a", "1", " ", "\n", `"`, "'", "`", "/", "*", "\xc3", "\xa9", "\xff", "\x00", "\r"}
 	maxLen := 4
 	if verifThorough() {
 		maxLen = 5
